@@ -56,8 +56,8 @@ type c10Case struct {
 	// client part: response variants (V = response version, C = Connection value)
 	Resps []c10Req `json:"resps,omitempty"`
 	// shutdown part
-	CloseOnShutdown bool `json:"close_on_shutdown,omitempty"`
-	ShutdownAt      int  `json:"shutdown_at,omitempty"`
+	CloseOnShutdown bool   `json:"close_on_shutdown,omitempty"`
+	ShutdownAt      int    `json:"shutdown_at,omitempty"`
 	Text            string `json:"text,omitempty"` // human readable rendering
 }
 
@@ -285,7 +285,9 @@ func c10RunServer(r *vrt.R, s *Server, cs c10Case, judgeAll bool) (kept bool) {
 		}
 		if k == n {
 			if reason != "" {
-				r.NontrivialHash(c10Hash(cs))
+				if n <= 3 { // keep the set of distinct keys modest; deeper histories are counted by the counter below
+					r.NontrivialHash(c10Hash(cs))
+				}
 				r.Add("responses_judged_must_close", 1)
 			} else {
 				r.Add("responses_judged_may_persist", 1)
